@@ -84,4 +84,10 @@ CLAIMED['C18'] = dict(
     technique='CrossHair-engine symbolic execution of createImporter and the *SpineImporter.import_token rule on symbolic strings with an over-approximating parser stub; z3-enumerated corpus through the real parser',
     design='5 C18')
 
+CLAIMED['C12'] = dict(
+    text=BMC + 'C12: (a) every history of 2..3 (quick) / 2..4 (thorough) cell texts from a pool of valid and malformed kinds on ONE KernSpineImporter: each outcome equals the outcome on a fresh importer; (b) documents with blank lines, global comments, split/join and non-kern spines under EVERY damage mask over their **kern data cells: import succeeds, exactly one error per malformed cell with its 1-based line, every other token identical (structural comparison) to the undamaged import, malformed cells exported verbatim in place; (b2) stub tier: Importer.run / ErrorToken / export on a SYMBOLIC rejected cell text; (c) token + garbage either raises or is fully accounted for by the exported token.',
+    note=NOTE + 'The malformed pool is classified by the current parser on every run. One open known finding (grammar start rule without EOF drops trailing garbage).',
+    technique='CrossHair-engine enumeration (z3-decided selectors) of importer histories and damage masks through the real parser + symbolic execution of Importer.run/ErrorToken on a symbolic malformed string (stubbed parser)',
+    design='5 C12')
+
 PENDING_REASON = 'check under construction in this session (to be claimed; see DESIGN.md section 5)'
